@@ -84,8 +84,19 @@ func readBoltFrame(c net.Conn) (typ byte, code uint16, id uint32, content []byte
 // scripted upstream: the request content is JSON {"up":ms,"gap":ms}: wait `up`, write the first half of the response,
 // wait `gap`, write the rest.
 type script struct {
-	Up  int `json:"up"`
-	Gap int `json:"gap"`
+	Up   int `json:"up"`
+	Gap  int `json:"gap"`
+	Size int `json:"size,omitempty"` // > 0: the response content is bigContent(Size) instead of the tag
+}
+
+// bigContent is a deterministic content of n bytes made of 4 KiB blocks of one byte value each (so that foreign bytes
+// inside it are recognisable and long runs keep any textual form short).
+func bigContent(n int) []byte {
+	b := make([]byte, n)
+	for i := range b {
+		b[i] = byte(33 + (i/4096)%90)
+	}
+	return b
 }
 
 func startUpstream() (string, func()) { return startUpstreamTagged("ok") }
@@ -121,6 +132,9 @@ func startUpstreamTagged(tag string) (string, func()) {
 							fmt.Println("upstream writes response", id, time.Now().Format("05.000"))
 						}
 						resp := boltResponse(id, []byte(tag))
+						if sc.Size > 0 {
+							resp = boltResponse(id, bigContent(sc.Size))
+						}
 						wmu.Lock()
 						defer wmu.Unlock()
 						if sc.Gap > 0 {
